@@ -339,6 +339,7 @@ def check_property(pid, tier, seed):
                 "monitor_unclassified": agg["uncl"],
                 "monitor_lost_at_end": agg["lostend"],
                 "families": fam_counts,
+                "edge_covers": [json.loads(x) for x in sorted({json.dumps(s.meta["edge_info"], sort_keys=True) for s in scenarios if "edge_info" in s.meta})],
                 "repository_tests_recorded": rt["tests"], "repository_tests_not_recorded": rt.get("not_recorded", []),
                 "repository_test_steps_validated": rt_steps, "repository_test_scenarios": rt_scen,
                 "harness_crashes": crashes,
